@@ -15,7 +15,7 @@ const (
 	keySubmit    = "github.com/gostdlib/base/concurrency/worker.Pool.Submit"
 	keyLimited   = "github.com/gostdlib/base/concurrency/worker.Pool.Limited"
 	keyRun       = "github.com/gostdlib/base/statemachine.Run"
-	keyRetry     = "github.com/gostdlib/base/retry/exponential.Backoff.Retry"
+	keyRetry     = "github.com/Azure/retry/exponential.Backoff.Retry"
 	keyPluginExe = "plugins.Plugin.Execute"
 )
 
@@ -24,7 +24,7 @@ func smKey(name string) string { return pkgSM + ".States." + name }
 func init() {
 	register(PropInfo{
 		ID: "C01",
-		Explanation: "All-paths decision of the structural clauses of C01 (DESIGN.md section 4, C01): (R1) dominance relations in the plan state graph extracted from the req.Next assignments of every path of every state function; (R2) routing of the pre-check gate's error branch; (R3) execSeq runs actions sequentially, in declared order, and stops at the first error; (R4) only blocks[0] is ever executed and blocks are popped from the front in BlockEnd/ExecuteBlock only; (R5) every path from a sequence launch to a return of ExecuteSequences passes the group's Wait; (R6) exact caller sets of the only route to Plugin.Execute. Decides these necessary conditions, not the behaviour as a whole.",
+		Explanation: "All-paths decision of the structural clauses of C01 (DESIGN.md section 4, C01): (R1) dominance relations in the plan state graph extracted from the req.Next assignments of every path of every state function; (R2) routing of the pre-check gate's error branch; (R3) execSeq runs actions sequentially, in declared order, and stops at the first error; (R4) only blocks[0] is ever executed and blocks are popped from the front in BlockEnd/ExecuteBlock only; (R5) every path from a sequence launch to a return of ExecuteSequences passes the group's Wait; (R6) exact caller sets of the only route to Plugin.Execute; (R7) the failure of a plugin invocation reaches execSeq's gate: exec's outcome mapping, Retry's result stored and promoted to the action machine's error, runAction returning it and not re-running terminal actions. Decides these necessary conditions, not the behaviour as a whole.",
 		NotDecided: []string{"that storage returns actions in position order at run time (C13 decides ORDER BY/pos binding)", "happens-before across goroutines beyond join points", "latencies"},
 		Assumptions: []string{"statemachine.Run clears Next before each state and stops when Next is nil or Err is set (read in gostdlib/base)", "worker.Group.Wait returns after every function given to Group.Go has returned"},
 		Rules:       rulesC01,
@@ -112,6 +112,11 @@ func rulesC01(r *Run) {
 	r.Kind("R6", "K4")
 	rulePluginConfinement(r, "R6")
 	r.Expect("R6", 7)
+
+	// ---- R7: an action's failure reaches execSeq (the gate "previous action finished successfully")
+	r.Kind("R7", "K2")
+	ruleFailureChain(r, "R7")
+	r.Expect("R7", 7)
 }
 
 func posOfState(m *Machine, st string) (p token.Pos) {
